@@ -225,7 +225,7 @@ theorem pathPrologue_error (cfg : Cfg) (s : St σ) (w : MW) (n ptr len e : Nat)
         rw [hg] at h
         simp only [Out.bind_val] at h
         rename_i hp _
-        cases hr : resolvePath s.heap hp gp with
+        cases hr : resolvePath cfg s.heap hp gp with
         | val r =>
           rw [hr] at h
           simp only [Out.bind_val] at h
@@ -254,6 +254,7 @@ theorem pathOpen_ok (cfg : Cfg) (H : Host σ) (s s' : St σ) (a b c d e f g hh i
     rcases pathPrologue_error cfg s _ a c d e' hpro with he | he <;>
       (subst he; simp [BADF, INVAL, Gen.Wasi.WASI_ERRNO_BADF, Gen.Wasi.WASI_ERRNO_INVAL] at h)
   · rename_i p hpro
+    unfold finishOpen at h
     split at h
     · simp at h
     · rename_i h' e' _
